@@ -15,11 +15,11 @@ func scenarios(quick bool) []sigh.Scen {
 		{"b-usurp", [][]string{{"attach:a1:A:B"}, {"attach:b1:B:A", "attach:b2:B:A"}}},
 		{"b-detach", [][]string{{"attach:a1:A:B"}, {"attach:b1:B:A", "cancel:b1"}}},
 		{"a-sends-b-reattach", [][]string{{"attach:a1:A:B", "wait", "send:a1:m1"}, {"attach:b1:B:A", "cancel:b1", "attach:b2:B:A"}}},
-		{"a-sends-b-acks-reattach", [][]string{{"attach:a1:A:B", "wait", "send:a1:m1"}, {"attach:b1:B:A", "wait", "ack:b1:last", "cancel:b1", "attach:b2:B:A"}}},
 		{"stale-send", [][]string{{"attach:a1:A:B", "sende:a1:m1:2", "sende:a1:m2:1"}, {"attach:b1:B:A"}}},
 	}
 	if !quick {
 		s = append(s,
+			sigh.Scen{"a-sends-b-acks-reattach", [][]string{{"attach:a1:A:B", "wait", "send:a1:m1"}, {"attach:b1:B:A", "wait", "ack:b1:last", "cancel:b1", "attach:b2:B:A"}}},
 			sigh.Scen{"both-reattach", [][]string{{"attach:a1:A:B", "cancel:a1", "attach:a2:A:B"}, {"attach:b1:B:A", "cancel:b1", "attach:b2:B:A"}}},
 			sigh.Scen{"b-reattach-twice", [][]string{{"attach:a1:A:B", "wait", "send:a1:m1"}, {"attach:b1:B:A", "cancel:b1", "attach:b2:B:A", "cancel:b2", "attach:b3:B:A"}}},
 			sigh.Scen{"send-both-ways-reattach", [][]string{{"attach:a1:A:B", "wait", "send:a1:m1", "ack:a1:last"}, {"attach:b1:B:A", "wait", "send:b1:n1", "cancel:b1", "attach:b2:B:A", "clear:b2:1"}}},
